@@ -34,18 +34,28 @@ RULE = ("forward: stretched/random/uniform grid 5..9 x 4..7 x 5..9, laterally "
 ASSUMPTIONS = [
     "empymod.bipole (the 1D reference modeller) is the trusted base; both "
     "sides call the same empymod, the checker with arguments derived from the "
-    "generated description (absolute centre, azimuth, elevation, moment = "
-    "strength*length, top-down layer order), never from emg3d objects",
-    "sources/receivers keep a distance of >=1e-3 cell heights from layer "
-    "interfaces (the 1D response is discontinuous in the layer index there)",
-    "forward tolerance 1e-10 relative, falling back to 1e-11 of the norm of "
-    "the full 3x3 orientation tensor of that source-receiver pair near "
-    "coupling nulls",
+    "generated description (absolute position, azimuth, elevation, unit "
+    "response via strength=0 times moment = strength*length, top-down layer "
+    "order), never from emg3d objects; finite dipoles are handed over in the "
+    "same coordinate format (empymod rounds the centre of a 6-coordinate "
+    "bipole to mm, not that of a 5-coordinate dipole)",
+    "sources/receivers lie inside the model grid and keep a distance of "
+    ">=1e-3 cell heights from layer interfaces (the 1D response is "
+    "discontinuous in the layer index there); gridding='same' (automatic "
+    "gridding is documented to have no effect in layered mode and is C16's "
+    "business)",
+    "forward tolerance: |got-ref| <= 1e-10|ref|, or <= 1e-11 of the norm of "
+    "the full 3x3 orientation tensor of that source-receiver pair (coupling "
+    "nulls), or <= 20 x the measured numerical noise of the reference (its "
+    "change under 1e-13 relative perturbations of the layers; strongly "
+    "attenuated responses are cancelling filter sums)",
     "gradient: emg3d uses a forward difference with 1e-4 relative step in "
     "conductivity, so agreement with the central difference is first order; "
-    "tolerance 1e-2*max_k|FD_k| per component; cases where the checker's own "
-    "estimate of the truncation term (|phi''| dp/2) exceeds a quarter of that "
-    "tolerance are inconclusive",
+    "tolerance 1e-2*max_k|FD_k| per component (+1e-9|phi|/h rounding floor); "
+    "cases where the checker's own estimate of the truncation term "
+    "(|phi''| dp/2) or of the numerical noise of the misfit divided by the "
+    "implementation's step exceeds a quarter of that tolerance, or whose "
+    "responses underflow (<1e-100), are inconclusive",
 ]
 SHARDS = {'quick': 1, 'thorough': 16}
 
@@ -225,7 +235,8 @@ def build_receivers(rspecs, grid, seed, sources):
             rel = False
             off = p
             absp = [p for c in cs]
-            if not z_ok(p[2], nz, margin):
+            if not z_ok(p[2], nz, margin) or any(
+                    np.linalg.norm(p-c) <= dmin for c in cs):
                 raise Inconclusive("no admissible receiver position")
         cls = emg3d.RxElectricPoint if rs['type'] == 'e' else \
             emg3d.RxMagneticPoint
@@ -363,11 +374,11 @@ def first_layer_minus_one(model):
 
 
 # ------------------------------------------------------------------ forward
-def method_spec(method):
+def method_spec(method, merge=(None, False, True, True)):
     opt = lambda s: st.one_of(st.none(), s, s, s)  # noqa: E731
     return st.fixed_dictionaries({
         'method': st.just(method),
-        'merge': st.sampled_from([None, False, True, True]),
+        'merge': st.sampled_from(list(merge)),
         'radius': opt(gen.lgfloat(0.01, 20)),
         'factor': opt(st.floats(0.5, 3.0)),
         'minor': opt(st.floats(0.05, 1.5)),
@@ -464,21 +475,26 @@ def setup_problem(spec):
 
 def noise_level(s, r, i, freqs, lay, nodes_z, ref_ij):
     """Numerical noise of the reference itself: largest change of the
-    response under four 1e-13 relative perturbations of the layer
+    response under ten 1e-15..1e-12 relative perturbations of the layer
     parameters.  Strongly attenuated responses (many skin depths) are sums of
     large cancelling filter terms; there a one-ulp difference in an input
     (1/(1/x), 10**log10(x)) re-rolls the rounding of the whole sum."""
     sh, sv, mur, epsr = lay
     n = np.zeros(len(freqs))
-    for t in range(4):
+    # Ten perturbations at relative sizes 1e-15..1e-12: the noise is chaotic
+    # (a sample of four at 1e-13 was seen to underestimate it 20-fold).
+    for t in range(10):
         rng = gen.rng_of(977+t, 7)
-        sh2 = sh*(1+1e-13*rng.choice([-1, 1], sh.size))
-        sv2 = None if sv is None else sv*(1+1e-13*rng.choice([-1, 1],
-                                                              sh.size))
+        eps = 10.0**rng.uniform(-15, -12)
+        sh2 = sh*(1+eps*rng.choice([-1, 1], sh.size))
+        sv2 = None if sv is None else sv*(1+eps*rng.choice([-1, 1], sh.size))
         v = emp(s['esrc'], s['mag'], s['moment'], rec5(r, r['abs'][i]),
                 r['mag'], freqs, (sh2, sv2, mur, epsr), nodes_z)
         n = np.maximum(n, np.abs(v-ref_ij))
-    return n
+    # the relative noise level of the pair applies to all its frequencies
+    with np.errstate(invalid='ignore', divide='ignore'):
+        rel = np.nanmax(np.where(np.abs(ref_ij) > 0, n/np.abs(ref_ij), 0.0))
+    return np.maximum(n, rel*np.abs(ref_ij))
 
 
 def compare(got, ref, mask, sources, receivers, freqs, lay, nodes_z,
@@ -582,11 +598,7 @@ def case_forward(spec, rec):
         msg = (f"method {m} opts {lo}: synthetic[{i},{j},{k}]={got[i, j, k]} "
                f"vs empymod {ref[i, j, k]} (src {s['type']} rec {r['type']} "
                f"f={freqs[k]}); {len(plain[m])} entries differ")
-        if len(nplain) == len(METHODS):
-            sig = ("synthetic_mismatch:all_methods:"
-                   f"{'vti' if spec['layers']['vti'] else 'isotropic'}")
-            raise Violation(sig, msg)
-        # only some methods: is it the merge option?
+        # is it the merge option?  (same method without merging)
         if lo.get('merge'):
             lo2 = dict(lo)
             lo2['merge'] = False
@@ -604,6 +616,10 @@ def case_forward(spec, rec):
                     (":first_layer_minus_one" if flm1 else ""),
                     "merge=True changes the response of a laterally "
                     "invariant model; " + msg)
+        if len(nplain) == len(METHODS):
+            sig = ("synthetic_mismatch:all_methods:"
+                   f"{'vti' if spec['layers']['vti'] else 'isotropic'}")
+            raise Violation(sig, msg)
         raise Violation(f"method_dependence:{m}", msg)
     for cat in ('src_strength_negative', 'src_dipole5_length', 'rx_relative'):
         for m in METHODS:
@@ -1035,7 +1051,8 @@ def gradient_strategy():
         'obs': st.fixed_dictionaries({
             'mode': st.sampled_from(['full', 'full', 'gaps', 'gaps', 'none']),
             'seed': gen.SEED}),
-        'method': st.sampled_from(METHODS).flatmap(method_spec),
+        'method': st.sampled_from(METHODS).flatmap(
+            lambda m: method_spec(m, (None, False, True, False, None))),
         'noise': st.sampled_from(['re', 're+nf', 'nf']),
     })
 
@@ -1129,6 +1146,19 @@ def case_gradient(spec, rec):
                 p.size, 1e-4/np.log(10))
         return np.full(p.size, 1e-3), np.full(p.size, 1e-4)
 
+    # numerical noise of the misfit itself (filter sums of empymod; can reach
+    # 1e-6 relative with very resistive layers): largest change under three
+    # perturbations of all layers by 1e-11 relative in conductivity, i.e.
+    # seven decades below the implementation's step
+    nphi = 0.0
+    if mode != 'none':
+        for t in range(3):
+            r2 = gen.rng_of(4711+t, 9)
+            qx = px0 + r2.choice([-1, 1], nz)*steps(px0)[1]*1e-7
+            qz = None if pz0 is None else \
+                pz0 + r2.choice([-1, 1], nz)*steps(pz0)[1]*1e-7
+            nphi = max(nphi, abs(misfit(qx, qz)-phi0))
+
     comps = [('x', px0)] + ([('z', pz0)] if vti else [])
     anysens = False
     for ci, (cn, p) in enumerate(comps):
@@ -1164,13 +1194,29 @@ def case_gradient(spec, rec):
         if sensitive and trunc.max() > 2.5e-3*ref:
             raise Inconclusive("fd truncation of the implementation's "
                                "forward difference too large")
+        if sensitive and (2*nphi/dimpl).max() > 2.5e-3*ref:
+            raise Inconclusive("misfit numerically too noisy for a forward "
+                               "difference with 1e-4 relative step")
         err = np.abs(G[ci]-FD)
         if np.any(err > 1e-2*ref+floor):
             k = int(np.argmax(err-floor))
+            if lo.get('merge'):
+                # same comparison without merging layers
+                sim2 = run_simulation(sources, receivers, freqs, data,
+                                      make_model(px0, pz0),
+                                      dict(lo, merge=False), **skw)
+                with quiet():
+                    g2 = np.array(sim2.gradient)
+                G2 = g2.reshape(-1, *grid.shape_cells).sum(axis=(1, 2))
+                if not np.any(np.abs(G2[ci]-FD) > 1e-2*ref+floor):
+                    raise Violation(
+                        "layer_gradient_mismatch:merge",
+                        f"with merge=True the layer sums are {G[ci].tolist()}"
+                        f", with merge=False {G2[ci].tolist()}, central "
+                        f"differences {FD.tolist()}; layers {sh.tolist()}")
             raise Violation(
-                f"layer_gradient_mismatch:{mapping}:"
-                f"{'vti_'+cn if vti else 'iso'}",
-                f"component {cn} layer {k}: sum of gradient {G[ci][k]:.6e} "
+                f"layer_gradient_mismatch:{'vti_'+cn if vti else 'iso'}",
+                f"mapping {mapping} component {cn} layer {k}: sum of gradient {G[ci][k]:.6e} "
                 f"vs central difference {FD[k]:.6e}; all layers G="
                 f"{G[ci].tolist()} FD={FD.tolist()} (tolerance 1e-2*"
                 f"{ref:.3e}); method {lo}")
@@ -1203,6 +1249,6 @@ def run(ctx):
     ctx.explore('extract', extract_strategy(), case_extract,
                 ctx.n(1000, 5000))
     ctx.explore('forward', forward_strategy(), case_forward,
-                ctx.n(150, 1200), shrink=not ctx.quick)
+                ctx.n(150, 1200), shrink=False)
     ctx.explore('gradient', gradient_strategy(), case_gradient,
-                ctx.n(30, 150), shrink=False)
+                ctx.n(40, 150), shrink=False)
